@@ -38,13 +38,21 @@ func dirFactory(dir string) backendFactory {
 }
 
 // stressPrograms draws one program per goroutine: mostly writes, some reads, on a few rings of the universe.
-func stressPrograms(seed int64, tag string, goroutines, actions int, targets []target) [][]action {
+// With life, about a fifth of the actions are handle life-cycle events (CycleHandle: another handle opened and closed; Reopen:
+// the goroutine's own handle closed and replaced), so that writers work on handles opened before and after Closes of other handles.
+func stressPrograms(seed int64, tag string, goroutines, actions int, targets []target, life ...bool) [][]action {
 	progs := make([][]action, goroutines)
 	for g := 0; g < goroutines; g++ {
 		rng := gen.New(seed, fmt.Sprintf("c17-stress-%s-%d", tag, g))
 		for k := 0; k < actions; k++ {
 			var a action
-			if rng.Intn(10) < 7 {
+			if len(life) > 0 && life[0] && rng.Intn(5) == 0 {
+				tg := targets[rng.Intn(len(targets))]
+				a = action{Kind: []string{"CycleHandle", "Reopen"}[rng.Intn(2)], Client: tg.Client, Ring: tg.Ring, Pick: rng.Intn(2)}
+				if g%2 == 0 && a.Kind == "Reopen" {
+					a.Kind = "CycleHandle" // half of the goroutines keep the handle they started with (a long-running server)
+				}
+			} else if rng.Intn(10) < 7 {
 				a = genWrite(rng, targets, len(universe))
 				if a.Kind == "ImportNX" || a.Kind == "ImportOW" {
 					a.Bundle = bundleIndex(targets[rng.Intn(len(targets))])
@@ -61,7 +69,12 @@ func stressPrograms(seed int64, tag string, goroutines, actions int, targets []t
 // v2Stress runs goroutines, each with its OWN keystore handle, against one shared store. After every action all
 // goroutines meet at a barrier (keeps the concurrency windows of the recorded history bounded; inside a round
 // everything runs freely).
-func v2Stress(r *ev.Run, kind string, factory backendFactory, goroutines, actions int, targets []target) {
+func v2Stress(r *ev.Run, kind string, factory backendFactory, goroutines, actions int, targets []target, life ...bool) {
+	withLife := len(life) > 0 && life[0]
+	workload, tag := "stress", kind
+	if withLife {
+		workload, tag = "stress-handle-life-cycle", kind+"-life"
+	}
 	keys := ksrig.NewV2Keys()
 	var specs []action
 	for _, tg := range universe {
@@ -72,7 +85,7 @@ func v2Stress(r *ev.Run, kind string, factory backendFactory, goroutines, action
 		panic(err)
 	}
 	rec := newRecorder()
-	progs := stressPrograms(r.Seed, kind, goroutines, actions, targets)
+	progs := stressPrograms(r.Seed, tag, goroutines, actions, targets, withLife)
 	ctxs := make([]*threadCtx, goroutines)
 	for g := 0; g < goroutines; g++ {
 		b, err := factory()
@@ -84,6 +97,17 @@ func v2Stress(r *ev.Run, kind string, factory backendFactory, goroutines, action
 			panic(err)
 		}
 		ctxs[g] = newThreadCtx(r, g, h, bundles, kind)
+		if withLife {
+			g := g
+			ctxs[g].owns = true
+			ctxs[g].open = func() (*handle, error) {
+				b, err := factory()
+				if err != nil {
+					return nil, err
+				}
+				return openHandle(b, keys, rec, g)
+			}
+		}
 	}
 	var wg sync.WaitGroup
 	bar := newBarrier(goroutines)
@@ -102,7 +126,7 @@ func v2Stress(r *ev.Run, kind string, factory backendFactory, goroutines, action
 		return
 	}
 	r.Cases(goroutines * actions)
-	r.Count("stress_actions_"+kind, int64(goroutines*actions))
+	r.Count("stress_actions_"+tag, int64(goroutines*actions))
 	detail := map[string]interface{}{"goroutines": goroutines, "actions_each": actions, "seed": r.Seed, "programs": progStrings(progs)}
 	for _, x := range ctxs {
 		for _, f := range x.bad {
@@ -122,8 +146,8 @@ func v2Stress(r *ev.Run, kind string, factory backendFactory, goroutines, action
 		panic(err)
 	}
 	hist := rec.history()
-	if checkHistory(r, hist, finals, checkCtx{Backend: kind, Workload: "stress", Detail: detail, Timeout: 30 * time.Second}) {
-		r.Distinct(fmt.Sprintf("stress:%s:%d-goroutines", kind, goroutines))
+	if checkHistory(r, hist, finals, checkCtx{Backend: kind, Workload: workload, Detail: detail, Timeout: 30 * time.Second}) {
+		r.Distinct(fmt.Sprintf("stress:%s:%d-goroutines", tag, goroutines))
 		if len(hist) > 12 {
 			r.SampleN("stress-"+kind, 1, map[string]interface{}{"kind": "free-running stress history (" + kind + ", first 12 operations)", "ops": renderOps(hist[:12])})
 		}
